@@ -1138,7 +1138,16 @@ def lean_replay(chk, P, ns, f, t, k, calls):
 
 def compare_replay(chk, P, ns, f, t, modes, calls):
     """real samples against the model's on the same draws -> None or (signature, text)"""
-    rep, bad = lean_replay(chk, P, ns, f, t, len(modes), calls)
+    try:
+        rep, bad = lean_replay(chk, P, ns, f, t, len(modes), calls)
+    except core.LeanError:
+        raise
+    except (IndexError, KeyError, ValueError, TypeError) as e:
+        # the code made other random calls than the route the model takes needs (e.g. none at all: it took the
+        # perfect-source shortcut): model and code disagree on the route; the direct oracles decide whether the law is wrong
+        return ("model-vs-code:sampler-route",
+                f"the recorded random calls of generate_samples({ns}, min_detected_photons={f}) "
+                f"({[c[0] for c in calls][:8]}) cannot be matched with the model's route ({type(e).__name__}: {e})")
     if bad is not None:
         return bad
     if "err" in rep:
@@ -2369,7 +2378,19 @@ def simplify_cases(chk, lat, rng):
 
 
 def judge(chk, case):
-    return JUDGES[case["kind"]](chk, case)
+    try:
+        return JUDGES[case["kind"]](chk, case)
+    except core.LeanError:
+        raise
+    except (IndexError, KeyError, ValueError, TypeError, AttributeError, AssertionError, ZeroDivisionError) as e:
+        # the comparison itself could not be carried out on what the implementation did (e.g. it made none of the random
+        # calls the route of the model needs): the correspondence for this case is broken; reported as such instead of
+        # ending the run with a harness error.  Never met on the unchanged tree.
+        import traceback
+        where = traceback.extract_tb(e.__traceback__)[-1]
+        return ("broken", f"{case['kind']}-not-evaluable",
+                f"{case['kind']} case could not be compared ({type(e).__name__}: {str(e)[:120]} at "
+                f"{where.name}:{where.lineno})", None)
 
 
 # ------------------------------------------------------------------------------------------------
